@@ -150,6 +150,7 @@ type LoopSpec struct {
 }
 
 type FuncSpec struct {
+	NoSafety   bool   // directive `nosafety`
 	Functional string // name of the specification function that stands for the result (directive `functional`)
 	Hints    map[string]map[string]bool // obligation suffix -> labels of the quantified hypotheses it may use
 	Key      string // function identifier as written
@@ -608,7 +609,7 @@ func parseExprString(src string) (e Expr, err error) {
 
 var declKeywords = map[string]bool{"hide": true, "before": true, "at": true, "sortspec": true, "after": true, "assert": true, "opaque": true, "reveal": true, "import": true, "ghost": true, "fun": true, "pred": true, "ufun": true,
 	"axiom": true, "func": true, "extern": true, "lemma": true, "requires": true, "ensures": true,
-	"modifies": true, "loop": true, "hint": true, "functional": true, "invariant": true, "pure": true, "free": true, "trusted": true, "mutates": true,
+	"modifies": true, "loop": true, "hint": true, "functional": true, "nosafety": true, "invariant": true, "pure": true, "free": true, "trusted": true, "mutates": true,
 	"package": true}
 
 // logical lines: a line starting with a keyword begins a new item; other lines continue the previous.
@@ -936,6 +937,12 @@ func (db *SpecDB) LoadSpecFile(path string, pkgPath string) error {
 			if cur.Functional == "" {
 				return fail(ll, "functional <name>")
 			}
+		case "nosafety":
+			// thin contract: the panic-freedom obligations of this function's body are not generated (and not claimed)
+			if cur == nil {
+				return fail(ll, "nosafety outside func")
+			}
+			cur.NoSafety = true
 		case "pure":
 			if cur == nil {
 				return fail(ll, "pure outside func")
